@@ -28,7 +28,11 @@ RULE = ("exhaustive: every pair (table, queries) of sorted multisets of <=2 rows
         "or ends or both None; into_ranges on a float column (default nanmedian, also with NaN values), with a "
         "supplied function (max, len, last, np.nanmean, and the combiners first_of / last_of / join_strings of skgenome.combiners), with a non-callable constant, with a string column + "
         "function, for a missing column, with NaN / numeric defaults, positional and keyword.  non-trivial = some "
-        "query overlaps some row of the same chromosome; distinct by hash of (op, input)")
+        "query overlaps some row of the same chromosome; distinct by hash of (op, input).  Extension 5 (op in_ranges_raw): "
+        "in_ranges with starts / ends of UNEQUAL length, with one or both arrays EMPTY, empty next to absent, as "
+        "list / tuple / ndarray / Series, on 60 (quick) / all (thorough) tables of <=3 rows over 0..3 x 3 modes and on 60 / 600 "
+        "random nested / abutting / sparse tables: the returned rows or the exception raised (ValueError, AssertionError) "
+        "against the model c07InRangesRaw; an exception on documented arguments is a violation")
 EXHAUSTIVE = {"quick": True, "thorough": True}
 ASSUMPTIONS = ["queried table sorted by (chromosome key, start, end), start < end, coordinates >= 0; the rows of "
                "one chromosome are contiguous in the query table (their order within it is free)"]
@@ -61,6 +65,13 @@ def corpus():
         {"op": "in_range", "tag": "corpus-H", "in": {"t": nested, "chrom": "chr1", "s": None, "e": 25, "mode": "inner"}},
         {"op": "intersect", "tag": "corpus-Q", "in": {"a": nested, "b": [["chr2", 0, 5, "q"]], "mode": "outer"}},
         {"op": "into_ranges", "tag": "corpus-S", "in": {"a": [], "b": nested, "default": "dflt"}},
+        # extension 5: unequal / empty arrays (mask path asserts, search path truncates, no query -> ValueError)
+        {"op": "in_ranges_raw", "tag": "corpus-raw", "in": {"t": nested, "chrom": "chr1", "starts": [5, 15, 35], "ends": [12, 50], "mode": "trim"}},
+        {"op": "in_ranges_raw", "tag": "corpus-raw", "in": {"t": nested[1:], "chrom": "chr1", "starts": [5, 15, 35], "ends": [12, 50], "mode": "trim"}},
+        {"op": "in_ranges_raw", "tag": "corpus-raw", "in": {"t": nested, "chrom": "chr1", "starts": None, "ends": [], "mode": "outer"}},
+        {"op": "in_ranges_raw", "tag": "corpus-raw", "in": {"t": nested, "chrom": "chr1", "starts": [], "ends": None, "mode": "trim"}},
+        {"op": "in_ranges_raw", "tag": "corpus-raw", "in": {"t": nested, "chrom": "chr1", "starts": [], "ends": [15, 35], "mode": "inner"}},
+        {"op": "in_ranges_raw", "tag": "corpus-raw", "in": {"t": nested, "chrom": "chr2", "starts": [], "ends": [], "mode": "outer"}},
         {"op": "into_ranges", "tag": "corpus-S", "in": {"a": nested, "b": [], "default": "dflt"}},
         # natural chromosome order != string order (groupby must not sort)
         {"op": "by_ranges", "tag": "corpus-chromorder",
@@ -370,7 +381,54 @@ def gen_cases(rng, tier):
             c["tag"] += "-subidx"
         # (2) representation, call form, chromosome names
         _modify(rng, c, p_rep=0.3 if big else 0.2, p_call=0.3 if big else 0.2, p_chrom=0.25)
+    cases += _raw_cases(rng, quick)
     return cases
+
+
+def _raw_cases(rng, quick):
+    """extension 5: in_ranges with starts / ends of unequal length and with empty arrays (model c07InRangesRaw:
+    truncation on the binary-search path, AssertionError on the mask path, ValueError for no query at all, an
+    empty array = an absent one), on every table of <= 3 rows over 0..3 and on random tables"""
+    out = []
+
+    def arrays(hi):
+        k = rng.random()
+        n1, n2 = rng.randint(1, 3), rng.randint(1, 3)
+        if k < 0.45:       # unequal, both non-empty
+            while n2 == n1:
+                n2 = rng.randint(1, 4)
+        elif k < 0.6:      # one empty, the other not
+            n1, n2 = rng.choice([(0, n2), (n1, 0)])
+        elif k < 0.7:      # both empty / empty and absent
+            n1, n2 = rng.choice([(0, 0), (0, None), (None, 0)])
+        elif k < 0.8:      # one absent
+            n1, n2 = rng.choice([(None, n2), (n1, None)])
+        mk = lambda n: None if n is None else [rng.randint(0, hi) for _ in range(n)]
+        ss, es = mk(n1), mk(n2)
+        if ss and es and rng.random() < 0.7:   # mostly valid ranges: end above start
+            es = [max(e, ss[j] + 1) if j < len(ss) else e for j, e in enumerate(es)]
+        return ss, es
+
+    tables = T.small_tables(3, 3, prefix="a")
+    if quick:
+        tables = rng.sample(tables, 60)
+    for t in tables:
+        for m in MODES:
+            ss, es = arrays(4)
+            out.append({"op": "in_ranges_raw", "tag": "exh-inranges-raw",
+                        "in": {"t": t, "chrom": rng.choice(["chr1", "chr1", "chr1", None, "chr2"]), "starts": ss,
+                               "ends": es, "mode": m, "qform": rng.choice(["list", "tuple", "array", "series"])}})
+    for _ in range(60 if quick else 600):
+        t = T.random_table(rng, 25, rng.choice([("chr1",), ("chr1", "chr2")]), prefix="a",
+                           style=rng.choice(["nested", "abut", "sparse"]), allow_empty=False)
+        r = rng.choice(t)
+        ss, es = arrays(r[2] + 3)
+        i = {"t": t, "chrom": r[0], "starts": ss, "ends": es, "mode": rng.choice(MODES),
+             "qform": rng.choice(["list", "tuple", "array", "series"])}
+        if rng.random() < 0.3:
+            i["sub"] = rng.randint(1, 10 ** 6)
+        out.append({"op": "in_ranges_raw", "tag": "random-inranges-raw", "in": i})
+    return out
 
 
 # ---- the real code --------------------------------------------------------------------------------------------
@@ -432,6 +490,18 @@ def run_impl(case):
 
     mutated = {"__error__": "InputMutated", "msg": "the call changed one of its input tables"}
     chk = i.get("chk")
+    if op == "in_ranges_raw":
+        t0, t = table("t")
+        mk = {"list": list, "tuple": tuple, "array": lambda v: np.array(v, dtype=int),
+              "series": lambda v: pd.Series(v, index=range(7, 7 + len(v)), dtype=int)}[i.get("qform", "list")]
+        starts, ends = (None if i["starts"] is None else mk(i["starts"])), (None if i["ends"] is None else mk(i["ends"]))
+        try:
+            res = t.in_ranges(i["chrom"], starts, ends, i["mode"])
+        except (ValueError, AssertionError) as exc:
+            return {"raise": type(exc).__name__} if unchanged((t0, t)) else mutated
+        if type(res) is not type(t):
+            return {"__error__": "WrongClass", "msg": f"{type(res).__name__} from a {type(t).__name__}"}
+        return {"rows": T.rows_of(res)} if unchanged((t0, t)) else mutated
     if op == "in_range" or op == "in_ranges":
         t0, t = table("t")
         if op == "in_range":
@@ -566,7 +636,7 @@ def judge(case, impl, resp):
 def nontrivial(case, impl, resp):
     i = case["in"]
     if "t" in i:
-        return len(i["t"]) >= 1 and (i.get("s") is not None or i.get("e") is not None or "qs" in i)
+        return len(i["t"]) >= 1 and (i.get("s") is not None or i.get("e") is not None or "qs" in i or bool(i.get("starts") or i.get("ends")))
     for x in i.get("a", []):
         for y in i.get("b", []):
             if x[0] == y[0] and x[1] < y[2] and y[1] < x[2]:
@@ -584,7 +654,13 @@ def shrink(case):
                 c = {"op": case["op"], "tag": "shrunk", "in": dict(i)}
                 c["in"][key] = smaller
                 yield c
-    for key in ("rep", "call", "sub", "num"):
+    for key in ("starts", "ends"):
+        if case["op"] == "in_ranges_raw" and i.get(key) and len(i[key]) > 1:
+            for k in range(len(i[key])):
+                c = {"op": case["op"], "tag": "shrunk", "in": dict(i)}
+                c["in"][key] = i[key][:k] + i[key][k + 1:]
+                yield c
+    for key in ("rep", "call", "sub", "num", "qform"):
         if key in i:
             c = {"op": case["op"], "tag": "shrunk", "in": {k: v for k, v in i.items() if k != key}}
             yield c
